@@ -75,7 +75,64 @@ def _len(d):
 # =====================================================================================
 # worker: executes one call sequence against the real cotengra (in-process or in a fresh
 # interpreter).  Specs and results are plain Python literals.
-def _resolve(x, spec, ctg, np):
+class _MutablePathOptimizer:
+    """an optimizer object whose answer is an attribute that the caller may change between calls"""
+
+    def __init__(self, path):
+        self.path = path
+
+    def __call__(self, inputs, output, size_dict, **kw):
+        return tuple(self.path)
+
+
+def _shared(x, spec, ctg, shared):
+    """optimize objects that live for the whole call sequence and are modified IN PLACE between calls"""
+    if x not in shared:
+        if x == "@shared_tree":
+            shared[x] = ctg.ContractionTree.from_path(spec["inputs"], spec["output"], _size_dict_of(spec),
+                                                      path=spec["tree_path"])
+        elif x == "@shared_list":
+            shared[x] = [tuple(st) for st in spec["tree_path"]]
+        elif x == "@shared_optimizer":
+            shared[x] = _MutablePathOptimizer(tuple(tuple(st) for st in spec["tree_path"]))
+    return shared[x]
+
+
+def _mutate(obj, op):
+    """one in-place modification of a shared optimize object"""
+    name, _, arg = op.partition(":")
+    if name == "subtree_reconfigure":
+        obj.subtree_reconfigure_()
+    elif name == "remove_ind":
+        obj.remove_ind_(arg)
+    elif name == "remove_ind_project":
+        ix, _, v = arg.partition(":")
+        obj.remove_ind_(ix, project=int(v))
+    elif name == "restore_ind":
+        obj.restore_ind_(arg)
+    elif name == "sort_contraction_indices":
+        obj.sort_contraction_indices()
+    elif name == "set_path":
+        new = [tuple(int(i) for i in st.split("-")) for st in arg.split(",")]
+        if isinstance(obj, list):
+            obj[:] = new
+        else:
+            obj.path = tuple(new)
+    else:
+        raise ValueError(op)
+
+
+def _current_path(obj):
+    if isinstance(obj, list):
+        return tuple(tuple(st) for st in obj)
+    if isinstance(obj, _MutablePathOptimizer):
+        return tuple(tuple(st) for st in obj.path)
+    return tuple(tuple(int(i) for i in st) for st in obj.get_path())
+
+
+def _resolve(x, spec, ctg, np, shared=None):
+    if isinstance(x, str) and x.startswith("@shared_"):
+        return _shared(x, spec, ctg, shared)
     if isinstance(x, str) and x.startswith("@"):
         if x == "@plus1":
             return (_ident, _plus1)
@@ -253,6 +310,7 @@ def exec_sequence(specs, clear=True):
     wrap("_build_expression")
     wrap("find_path")
     objs = []
+    shared = {}
     out = []
     try:
         for spec in specs:
@@ -263,7 +321,11 @@ def exec_sequence(specs, clear=True):
                 arrays = [np.array(a, dtype=np.int64) for a in spec.get("arrays", [])]
                 arrays2 = [np.array(a, dtype=np.int64) for a in spec.get("arrays2", [])]
                 kwargs = {k: _resolve(v, spec, ctg, np) for k, v in spec.get("kwargs", {}).items()}
-                opt = _resolve(spec.get("optimize", "auto"), spec, ctg, np)
+                opt = _resolve(spec.get("optimize", "auto"), spec, ctg, np, shared)
+                if isinstance(spec.get("optimize"), str) and spec["optimize"].startswith("@shared_"):
+                    for op in spec.get("mutate", ()):
+                        _mutate(opt, op)
+                    res["shared_path"] = _current_path(opt)
                 cache = spec.get("cache", True)
                 bk1 = spec.get("backend", "numpy")
                 bk2 = spec.get("backend2", bk1)
@@ -435,8 +497,9 @@ def expected_value(spec, arrays, oracle, np):
         for ix, d in zip(t, a.shape):
             sd[ix] = d
     via = spec.get("kwargs", {}).get("via")
-    res = oracle.dense_einsum(inputs, output, sd, [np.asarray(a) for a in arrays])
-    ref = oracle.dense_to_nested(res, output, sd)
+    fixed = dict(spec.get("fixed") or {})
+    res = oracle.dense_einsum(inputs, output, sd, [np.asarray(a) for a in arrays], fixed=fixed)
+    ref = oracle.dense_to_nested(res, output, sd, fixed=tuple(fixed))
     if via in ("@plus1", "@plus1_list"):
         ref = ref + 1
     return ref
@@ -645,6 +708,45 @@ def pools():
                     [(ix["s1"], "expr"), (ix["s2"], "expr"), (ix["s1r"], "expr")],
                     [(ix["s2"], "tree_struct"), (ix["s1"], "path"), (ix["s2"], "expr"), (ix["s2"], "path")]]
     P["size-binding"] = (sb, ["path", "expr", "tree_struct"], sbx)
+    # `optimize` is ONE mutable object reused across the calls of a sequence and modified in place in between:
+    # a ContractionTree (subtree_reconfigure_, remove_ind_ with and without project, restore_ind_,
+    # sort_contraction_indices), an explicit path given as a list (snapshotted into a tuple by the key) and an
+    # optimizer object (never cached).  Every call must answer for the object's CURRENT state.
+    B5 = dict(inputs=(("a", "b"), ("b", "c"), ("c", "d"), ("d", "e"), ("e", "f")), output=("a", "f"),
+              shapes=((2, 7), (7, 3), (3, 6), (6, 2), (2, 5)), eq="ab,bc,cd,de,ef->af",
+              tree_path=((0, 4), (0, 3), (0, 2), (0, 1)))
+    steps = {"tree": [[], ["subtree_reconfigure"], ["sort_contraction_indices"], ["remove_ind:c"], ["restore_ind:c"],
+                      ["remove_ind_project:c:1"]],
+             "list": [[], ["set_path:0-1,0-1,0-1,0-1"], ["set_path:3-4,2-3,1-2,0-1"]],
+             "optimizer": [[], ["set_path:0-1,0-1,0-1,0-1"], ["set_path:3-4,2-3,1-2,0-1"]]}
+    mo, mox = [], []
+    for kind, ops in steps.items():
+        idx = {}
+        for k, op in enumerate(ops):
+            for fixed in ((None, {"c": 1}) if kind == "tree" else (None,)):
+                idx[(k, bool(fixed))] = len(mo)
+                mo.append(var(B5, optimize="@shared_" + kind, mutate=op, fixed=fixed))
+        if kind == "tree":
+            plans = [[0, 1], [0, 2, 1], [0, 3, 4], [0, 1, 3, 4, 1], [0, 5], [0, 1, 5], [0, 3, 4, 5]]
+        else:
+            plans = [[0, 1], [0, 1, 2], [0, 2, 1, 2]]
+        for plan in plans:
+            for api in ("path", "einsum", "array_contract", "expr"):
+                fx = False
+                sq = []
+                for k in plan:
+                    if ops[k] and ops[k][0].startswith("remove_ind_project"):
+                        fx = True
+                    sq.append((idx[(k, fx)], api))
+                mox.append(sq)
+            fx = False
+            sq = []
+            for n, k in enumerate(plan):
+                if ops[k] and ops[k][0].startswith("remove_ind_project"):
+                    fx = True
+                sq.append((idx[(k, fx)], ("path", "einsum", "expr", "array_contract")[n % 4]))
+            mox.append(sq)
+    P["mutable-optimize"] = (mo, ["path", "einsum", "array_contract", "expr"], mox)
     P["kwargs-einsum"] = ([dict(eq="ab,bc,cd->ad", shapes=B3["shapes"], kwargs=k) for k in kws],
                           ["einsum", "einsum_expr"])
     P["canonicalize"] = ([var(B2, canonicalize=True), var(B2, canonicalize=False),
@@ -834,6 +936,9 @@ def judge_sequence(ctx, pool, specs, results, oracle, np, where, known_key=None)
                     res["tree_inputs"], res["tree_output"], spec["inputs"], spec["output"])
             if not oracle.path_is_valid_linear(n, p):
                 bad = "returned path %r is not a valid path for %d inputs" % (p, n)
+            elif "shared_path" in res and p != res["shared_path"]:
+                bad = ("the path %r was returned; the %s passed as optimize currently describes %r (it was "
+                       "modified in place since an earlier call)" % (p, spec["optimize"], res["shared_path"]))
             elif spec.get("judge_cost"):
                 own = _size_dict_of(spec)
                 res["cost"] = path_cost(spec["inputs"], spec["output"], own, p)
@@ -1518,6 +1623,8 @@ def run(ctx):
         if explicit:
             # the hand-built sequences always run; the random ones are thinned to keep the pool's share
             seqs = rng.sample(seqs, min(len(seqs), nseq_pool)) + [("explicit", e) for e in explicit]
+        if pname == "mutable-optimize":
+            seqs = [("explicit", e) for e in explicit]      # the in-place modifications only make sense in order
         for sq in seqs:
             if isinstance(sq, tuple):
                 apis_here = [a for _, a in sq[1]]
@@ -1530,6 +1637,9 @@ def run(ctx):
                     if pname == "backend-mix" and members[ma].get("backend") != members[mb].get("backend"):
                         ctx.count("feature:backend_switch_on_one_cache_key:%s->%s" % (
                             members[ma]["backend"], members[mb]["backend"]))
+                    if pname == "mutable-optimize" and members[mb].get("mutate"):
+                        ctx.count("feature:optimize_object_mutated_between_calls:%s:%s" % (
+                            members[mb]["optimize"][8:], members[mb]["mutate"][0].split(":")[0]))
                     if pname == "size-binding" and ma != mb:
                         va = tuple(v for _, v in members[ma]["size_dict"])
                         vb = tuple(v for _, v in members[mb]["size_dict"])
